@@ -94,6 +94,11 @@ type Call struct {
 	IDs []uint64 `json:"ids"`
 }
 
+type CutRec struct {
+	At   uint64 `json:"at"`
+	Hang bool   `json:"hang,omitempty"` // the request was scripted never to be answered
+}
+
 type Obs struct {
 	Panic   bool     `json:"panic,omitempty"`
 	PanicAt string   `json:"panic_text,omitempty"`
@@ -101,6 +106,9 @@ type Obs struct {
 	Ret     uint64   `json:"ret"`
 	Order   []int    `json:"order,omitempty"`
 	Nodes   [][]Call `json:"nodes,omitempty"`
+	// per node: the instants at which a request to it was abandoned because the context vouch made
+	// it with was finished (refused at entry or cut short while in flight), before the scenario's end
+	Cut [][]CutRec `json:"cut,omitempty"`
 	// scatter
 	GoMax   int      `json:"gomax,omitempty"`
 	ScErr   bool     `json:"scatter_error,omitempty"`
@@ -237,6 +245,17 @@ type nodeCore struct {
 	proposal *api.VersionedSignedProposal
 	firstSeq int
 	calls    []Call
+	cuts     []CutRec
+}
+
+// noteCut: a request to this node ended because its context was finished by the submitter (the
+// harness finishes the scenario's own context only after rec.closed is set).
+func (n *nodeCore) noteCut(hang bool) {
+	n.rec.mu.Lock()
+	if !n.rec.closed && !n.rec.warming {
+		n.cuts = append(n.cuts, CutRec{At: uint64(time.Since(n.rec.start) / time.Millisecond), Hang: hang})
+	}
+	n.rec.mu.Unlock()
 }
 
 func (n *nodeCore) touchLocked() {
@@ -263,6 +282,16 @@ func (n *nodeCore) do(ctx context.Context, ids []uint64) error {
 		n.rec.mu.Unlock()
 		return errors.New("scenario over")
 	}
+	// The node honours the request context in every method the way the HTTP client does: a request
+	// made with a finished context fails with the context's error without reaching the node ...
+	if err := ctx.Err(); err != nil {
+		if !n.rec.warming {
+			n.touchLocked()
+			n.cuts = append(n.cuts, CutRec{At: uint64(time.Since(n.rec.start) / time.Millisecond)}) // never reached the node, whatever its script
+		}
+		n.rec.mu.Unlock()
+		return err
+	}
 	if !n.rec.warming {
 		n.touchLocked()
 		n.calls = append(n.calls, Call{At: uint64(time.Since(n.rec.start) / time.Millisecond), IDs: ids})
@@ -272,13 +301,22 @@ func (n *nodeCore) do(ctx context.Context, ids []uint64) error {
 	if b.Hang {
 		select {
 		case <-ctx.Done():
+			n.noteCut(true)
 			return ctx.Err()
 		case <-n.rec.release:
 			return errors.New("scenario over")
 		}
 	}
+	// ... and a request in flight ends with the context's error as soon as the context is finished.
 	if b.Delay > 0 {
-		time.Sleep(time.Duration(b.Delay) * time.Millisecond)
+		tm := time.NewTimer(time.Duration(b.Delay) * time.Millisecond)
+		select {
+		case <-tm.C:
+		case <-ctx.Done():
+			tm.Stop()
+			n.noteCut(false)
+			return ctx.Err()
+		}
 	}
 	if b.Err == nil {
 		return nil
@@ -376,12 +414,16 @@ func (n *nodeCore) SubmitProposalPreparations(ctx context.Context, xs []*apiv1.P
 // nodeV adds the NodeVersionProvider (and Service) side that helpers.go serviceInfo looks for.
 type nodeV struct{ *nodeCore }
 
-func (n nodeV) NodeVersion(_ context.Context, _ *api.NodeVersionOpts) (*api.Response[string], error) {
+func (n nodeV) NodeVersion(ctx context.Context, _ *api.NodeVersionOpts) (*api.Response[string], error) {
 	n.rec.mu.Lock()
 	if !n.rec.closed && !n.rec.warming {
 		n.touchLocked()
 	}
 	n.rec.mu.Unlock()
+	if err := ctx.Err(); err != nil {
+		// a version request made with a finished context fails like any other request
+		return nil, err
+	}
 	if n.spec.Client == "unknown" && n.spec.Style%3 == 1 {
 		return nil, errors.New("node version unavailable")
 	}
@@ -622,6 +664,12 @@ func runSubmit(t *testing.T, in Input) Obs {
 			}
 			sort.SliceStable(cs, func(a, b int) bool { return first(cs[a]) < first(cs[b]) })
 			obs.Nodes[i] = cs
+		}
+		obs.Cut = make([][]CutRec, len(cores))
+		for i, c := range cores {
+			cs := append([]CutRec{}, c.cuts...)
+			sort.SliceStable(cs, func(a, b int) bool { return cs[a].At < cs[b].At || (cs[a].At == cs[b].At && !cs[a].Hang && cs[b].Hang) })
+			obs.Cut[i] = cs
 		}
 	})
 	return obs
@@ -953,7 +1001,16 @@ func term(id uint64, in Input, obs Obs) string {
 			}
 			onodes = append(onodes, List(ct))
 		}
-		o := Record("o_panic", Bool(obs.Panic), "o_success", Bool(obs.Success), "o_ret", N(obs.Ret), "o_nodes", List(onodes))
+		ocut := make([]string, 0, len(obs.Cut))
+		for _, cs := range obs.Cut {
+			ct := make([]string, 0, len(cs))
+			for _, c := range cs {
+				ct = append(ct, Pair(N(c.At), Bool(c.Hang)))
+			}
+			ocut = append(ocut, List(ct))
+		}
+		o := Record("o_panic", Bool(obs.Panic), "o_success", Bool(obs.Success), "o_ret", N(obs.Ret), "o_nodes", List(onodes),
+			"o_cut", List(ocut))
 		body = App("CSubmit", inp, List(order), o)
 	}
 	return Record("c_id", N(id), "c_body", body)
@@ -1148,7 +1205,7 @@ func genSubmit(r *Rand) Input {
 	}
 	n := r.Range(1, 5)
 	in.TimeoutMs = []uint64{200, 500, 1000, 2000}[r.Intn(4)]
-	fam := r.Intn(12)
+	fam := r.Intn(13)
 	switch {
 	case fam == 0 && n > 1:
 		in.Conc = int64(r.Range(1, n-1)) // below the number of nodes
@@ -1216,6 +1273,84 @@ func genSubmit(r *Rand) Input {
 				nd[i].Default = genBeh(r, in.Kind, nd[i].Client, T)
 			}
 		}
+	case 12:
+		// Nobody plainly accepts in time; success can only come from a node that rejects for a reason
+		// vouch tolerates from that client (the kinds that have such a table), for attestations
+		// preferably with the payload split into chunks of which some are accepted and some rejected
+		// for a tolerated reason at different instants (never a tolerated and a real rejection in one
+		// node: that is the known finding att-chunk-mixed).
+		in.Tags = append(in.Tags, "tolerated-reject-only")
+		switch k := r.Intn(10); {
+		case k < 6:
+			in.Kind = "attestations"
+		case k < 8:
+			in.Kind = "syncmessages"
+		default:
+			in.Kind = "synccontributions"
+		}
+		if in.Kind == "attestations" && r.Chance(3, 4) {
+			if in.Conc < 2 {
+				in.Conc = int64(r.Range(2, 4))
+			}
+			in.Len = r.Range(2, 3*int(in.Conc))
+		} else {
+			in.Len = genLen(r, in.Kind, in.Conc)
+			if in.Len == 0 {
+				in.Len = 1
+			}
+		}
+		tolClients := map[string][]string{"attestations": {"lighthouse", "nimbus"}, "syncmessages": {"lighthouse", "teku"},
+			"synccontributions": {"lighthouse"}}[in.Kind]
+		tolBeh := func(client string, d uint64) Beh {
+			e := genErr(r, in.Kind, client, "tol")
+			if r.Chance(5, 6) {
+				e.Shape = "failures"
+				if len(e.Entries) == 0 {
+					e.Entries = []*string{sp(tolPhrases(in.Kind, client)[0])}
+				}
+			}
+			return Beh{Delay: d, Err: e}
+		}
+		for i := range nd {
+			switch k := r.Intn(8); {
+			case k < 3:
+				nd[i].Default = Beh{Delay: genDelay(r, T), Err: genErr(r, in.Kind, nd[i].Client, "real")}
+			case k < 4:
+				nd[i].Default = Beh{Hang: true}
+			case k < 5:
+				nd[i].Default = Beh{Delay: T + uint64(r.Range(1, 300))} // accepts, but too late
+			case k < 6:
+				nd[i].Default = Beh{Delay: genDelay(r, T), Err: genErr(r, in.Kind, nd[i].Client, "near")}
+			default:
+				nd[i].Client = tolClients[r.Intn(len(tolClients))]
+				nd[i].Default = tolBeh(nd[i].Client, genDelay(r, T))
+			}
+		}
+		j := r.Intn(n)
+		nd[j].Client = tolClients[r.Intn(len(tolClients))]
+		nd[j].Default = tolBeh(nd[j].Client, uint64(r.Range(1, int(T)-1)))
+		if exts := tagExtents(in.Len, in.Conc); in.Kind == "attestations" && len(exts) > 1 {
+			// per chunk: accepted or rejected for a tolerated reason, each at its own instant
+			used := map[uint64]bool{nd[j].Default.Delay: true}
+			fresh := func() uint64 {
+				d := uint64(r.Range(0, int(T)-1))
+				for used[d] {
+					d = uint64(r.Range(1, int(T)-1))
+				}
+				used[d] = true
+				return d
+			}
+			if r.Bool() {
+				nd[j].Default = Beh{Delay: nd[j].Default.Delay} // the other chunks are accepted
+			}
+			for _, x := range r.Perm(len(exts))[:r.Range(1, len(exts)-1)] {
+				b := tolBeh(nd[j].Client, fresh())
+				if nd[j].Default.Err != nil && r.Bool() {
+					b = Beh{Delay: b.Delay}
+				}
+				nd[j].Over = append(nd[j].Over, Override{Item: uint64(exts[x][0] + r.Intn(exts[x][1])), Beh: b})
+			}
+		}
 	default:
 		for i := range nd {
 			nd[i].Default = genBeh(r, in.Kind, nd[i].Client, T)
@@ -1231,7 +1366,9 @@ func genSubmit(r *Rand) Input {
 		in.Tags = append(in.Tags, "after-earlier-submissions")
 	}
 	// chunk-specific behaviour: only attestations are split, but the rule is the same everywhere
-	if in.Kind == "attestations" && in.Len > 1 && r.Chance(1, 2) || in.Len > 0 && r.Chance(1, 25) {
+	if fam == 12 {
+		// the family has laid out its own chunks
+	} else if in.Kind == "attestations" && in.Len > 1 && r.Chance(1, 2) || in.Len > 0 && r.Chance(1, 25) {
 		for i := range nd {
 			if r.Chance(1, 2) {
 				continue
@@ -1449,7 +1586,7 @@ func TestC08(t *testing.T) {
 		return
 	}
 	col := NewCollector("C08", "Check.C08",
-		"submit scenarios: kind x 1-5 scripted nodes (accept / reject with a structured error body / slow / hang, per chunk for attestations) x concurrency x payload length, run on the real multinode service in a synctest bubble; plus util.Scatter and the immediate submitter. Non-trivial = the submission passes the empty-payload guard and at least one node does something other than accept before the timeout (scatter/immediate: non-empty input); distinct by input text")
+		"submit scenarios: kind x 1-5 scripted nodes (accept / reject with a structured error body / slow / hang, per chunk for attestations; every method fails with the context's error once its context is finished) x concurrency x payload length, run on the real multinode service in a synctest bubble; plus util.Scatter and the immediate submitter. Non-trivial = the submission passes the empty-payload guard and at least one node does something other than accept before the timeout (scatter/immediate: non-empty input); distinct by input text")
 	n := EnvInt("VERIF_N", 800)
 	thorough := os.Getenv("VERIF_TIER") == "thorough"
 	var ins []Input
